@@ -33,7 +33,8 @@ TIter  == /\ Is("iter")
              ELSE off' = TRUE /\ UNCHANGED <<allvars, skip>>
 TGjkEnd == /\ Is("gjkend")
            /\ IF ~off /\ st = "hit" /\ Len(Y) = 4 /\ Ev.rows = 4 /\ ProperStart(Y)
-              THEN /\ F' = <<Face(Y[1], Y[2], Y[3]), Face(Y[1], Y[3], Y[4]), Face(Y[1], Y[4], Y[2]), Face(Y[2], Y[4], Y[3])>>
+              THEN /\ LET Z == IF OrientStart /\ Det4(Y) > 0 THEN <<Y[1], Y[3], Y[2], Y[4]>> ELSE Y IN
+                      F' = <<Face(Z[1], Z[2], Z[3]), Face(Z[1], Z[3], Z[4]), Face(Z[1], Z[4], Z[2]), Face(Z[2], Z[4], Z[3])>>
                    /\ est' = "run" /\ eit' = 0 /\ UNCHANGED <<vars, res, AB, off, skip>>
               ELSE skip' = TRUE /\ UNCHANGED <<allvars, off>>
 TEIter == /\ Is("eiter")
